@@ -194,7 +194,7 @@ Print Assumptions C15_cli_exits_table.
 Theorem C15_run_first_failure :
   forall (f : flow) (user : bool) (sc : script),
   run f user sc =
-  match first_fail sc (exec_order user (f_items f)) with
+  match first_fail sc (flow_order f user) with
   | Some (s, e) => run f user (script_of [(s, e)])
   | None => run f user (script_of [])
   end.
@@ -203,7 +203,7 @@ Print Assumptions C15_run_first_failure.
 
 Theorem C15_cli_covered_failures_exit_1 :
   forall (user : bool) (sc : script) (s : stage) (e : ecls),
-  first_fail sc (exec_order user (f_items cli_flow)) = Some (s, e) ->
+  first_fail sc (flow_order cli_flow user) = Some (s, e) ->
   cli_diagnosed user s e = true ->
   o_end (run_cli user sc) = Exit 1.
 Proof. exact cli_covered_failures_exit_1. Qed.
